@@ -134,6 +134,7 @@ class C13(Harness):
             Ln = choice("L", 1, 3)
             inp["z"] = fresh_reals(ctx, "z", Ln)
             inp["d"] = ctx.fresh_int("d")
+            inp["gapped"] = bool(ctx.fresh_bool("gapped")) if Ln >= 2 else False
             if k == "deseason":
                 inp["with_update"] = bool(ctx.fresh_bool("with_update"))
                 if inp["with_update"]:
@@ -224,7 +225,11 @@ class C13(Harness):
                     res[tag] = {"raised": type(e).__name__}
             return res
         ytr = ser(inp["ytr"], s0)
-        z = ser(inp["z"], s0 + inp["d"])
+        if inp.get("gapped"):
+            # a stretch with a hole after its first time point (e.g. the forecasts of a gapped horizon)
+            z = pd.Series(list(inp["z"]), index=pd.Index([s0 + inp["d"] + (i if i == 0 else i + 1) for i in range(len(inp["z"]))]))
+        else:
+            z = ser(inp["z"], s0 + inp["d"])
         if k in ("deseason", "conditional"):
             D = W.load(DES)
             if k == "deseason":
@@ -333,8 +338,9 @@ class C13(Harness):
         n_tr = len(inp["ytr"])
         P.check("same-time-index", len(zt_i) == len(z) and len(bk_i) == len(z))
         for i in range(min(len(z), len(zt_i), len(bk_i))):
-            P.eq("same-time-index", zt_i[i], s0 + d + i)
-            P.eq("same-time-index", bk_i[i], s0 + d + i)
+            off_i = (i if i == 0 else i + 1) if inp.get("gapped") else i
+            P.eq("same-time-index", zt_i[i], s0 + d + off_i)
+            P.eq("same-time-index", bk_i[i], s0 + d + off_i)
             if k not in ("adaptor", "passthrough"):  # there the wrapped stub is not an inverse pair: data flow is checked below
                 P.eq("inverse-of-transform-is-identity", bk[i], z[i])
         # fit_transform == fit().transform on the training series
@@ -351,7 +357,7 @@ class C13(Harness):
                 if not seasonal:
                     P.eq("conditional-not-seasonal-is-identity", zt[i], z[i])
                     continue
-                ph = (d + i) % sp  # position modulo the period relative to the training series
+                ph = (d + ((i if i == 0 else i + 1) if inp.get("gapped") else i)) % sp  # position modulo the period relative to the training series
                 phc = int(ph) if P.sym else ph
                 want = z[i] - sig[phc] if cell["model"] == "additive" else z[i] / sig[phc]
                 P.eq(lab, zt[i], want)
